@@ -32,6 +32,7 @@ F=[
  ("F22","C04","omits untransformable haplotypes when","transform: .hap with a repeat (R line) and a haplotype naming a variant absent from the genotypes crashes with AttributeError ('Repeat' has no varIDs) instead of reporting and omitting"),
  ("F24","C07","iterating over an empty PGEN","GenotypesPLINK.__iter__ on an empty .pgen/.pvar raises pgenlib's 'No variants in' RuntimeError although read() returns an empty matrix"),
  ("F25","C19","reports requested samples that are absent","requested samples absent from a PGEN file are dropped without any report (VCF reads and subset() do report them)"),
+ ("F26","C15","zeroes constant columns whose mean","Phenotypes.standardize(): a constant column whose mean is not exactly representable (e.g. 0.1, 0.1, 0.1 or 5e-09 x 6) gets a tiny non-zero computed stdev and is standardised to all -1/+1 instead of all zeros"),
  ("F23","C04","aligns the breakpoints with the genotype","transform --ancestry with a .bp file listing the samples in another order than the genotype file: every sample gets another sample's local ancestry"),
 ]
 out=[dict(id=i,property=p,status="fixed",commit=sha(pat),what=w) for i,p,pat,w in F]
